@@ -83,9 +83,26 @@ def gen_scenario(rng, big=False):
     return "\n".join(lines) + "\n"
 
 
+def gen_many_holds(rng, n):
+    """One ULT takes n read holds of rwlock 0 (a reader may lock again; each hold counts in reader_count), a writer
+    and a second reader arrive while they are held, then the holds are given back one by one.  n around 256 and 65536
+    would show a reader_count narrower than the number of holds (the writer must stay out until the last unlock)."""
+    nes = rng.choice([1, 2])
+    lines = ["SEED %d" % rng.randint(1, 10**9), "NES %d" % nes, "WATCHDOG 20", "RWLOCK 0"]
+    cut = rng.randint(1, n)
+    toks = ["r0"] * n + ["Y", "Z1"] + ["u0"] * cut + ["Y"] + ["u0"] * (n - cut)
+    lines.append("THREAD 0 U 0 : %s" % " ".join(toks))
+    lines.append("THREAD 1 %s %d : Z1 w0 Y u0" % (rng.choice("UE"), rng.randint(0, nes)))
+    lines.append("THREAD 2 %s %d : Y R0 Z1 R0" % (rng.choice("UE"), rng.randint(0, nes)))
+    return "\n".join(lines) + "\n"
+
+
 def gen(rng, tier):
     n = 220 if tier == "quick" else 8000
-    return [gen_scenario(rng, big=(tier != "quick" and i % 3 == 0)) for i in range(n)], {"scenarios": n}
+    scs = [gen_scenario(rng, big=(tier != "quick" and i % 3 == 0)) for i in range(n)]
+    holds = [255, 256, 257, rng.randint(258, 700)] + ([rng.randint(2, 1500) for _ in range(20)] if tier != "quick" else [])
+    scs += [gen_many_holds(rng, h) for h in holds]
+    return scs, {"scenarios": len(scs), "many_holds_scenarios": len(holds), "max_read_holds": max(holds)}
 
 
 def run(tier, seed, replay):
@@ -93,7 +110,8 @@ def run(tier, seed, replay):
         ID, "Properties_C10.v", ["Properties_C10.vo", "Extract_C10.vo"], "c10", "h_c10.c", gen, tier, seed, replay=replay,
         rule="seeded scenarios: 2-8 callers (ULTs on 1-4 streams, external pthreads, tasklets that must be refused), 1-2 "
              "rwlocks, rdlock/wrlock/unlock with yields and sleeps inside the held section, adversarial arrival orders "
-             "(readers then a writer, a writer then everybody, writers only, mixed), nested locks in index order; every "
+             "(readers then a writer, a writer then everybody, writers only, mixed), nested locks in index order; 255 / 256 / 257 / "
+             "up to 700 (thorough 1500) read holds of one ULT outstanding while a writer and a reader arrive; every "
              "history replayed through the extracted LTS; harness-side holder counters + raw-history monitors; non-trivial = all",
         extra_assumptions=["a watchdog stop counts as a failure of this property only if an unfinished caller is blocked on the "
                            "rwlock with nothing left to wake it (queued in rw->cond with reader_count = write_flag = 0 and nobody "
